@@ -9,6 +9,7 @@ let dispatch kind args =
   | "v1conv" | "v1reloc" -> C11.run kind args
   | "enc" | "dec" -> C04.run kind args
   | "symtab" -> C13.run kind args
+  | "foldbin" | "foldun" | "litfalsy" -> C01.run kind args
   | _ -> failwith ("unknown kind " ^ kind)
 
 let () =
